@@ -21,12 +21,19 @@ import (
 // ------------------------------------------------------------------ wire ids
 // Taken from the vanilla protocol tables of 1.20.1 (763), 1.20.2 (764), 1.20.3/4 (765).
 
+// Pre-1.13 protocols the scripted endpoints also speak: 1.12.2 (340) and 1.8 (47).
+func legacy(proto int) bool { return proto < 393 }
+
 // SBPluginID is the serverbound custom payload id.
 func SBPluginID(proto int, config bool) int {
 	if config {
 		return 0x01
 	}
 	switch {
+	case proto == P1_8:
+		return 0x17
+	case legacy(proto):
+		return 0x09
 	case proto >= P1_20_3:
 		return 0x10
 	case proto >= P1_20_2:
@@ -40,7 +47,12 @@ func CBPluginID(proto int, config bool) int {
 	if config {
 		return 0x00
 	}
-	if proto >= P1_20_2 {
+	switch {
+	case proto == P1_8:
+		return 0x3f
+	case legacy(proto):
+		return 0x18
+	case proto >= P1_20_2:
 		return 0x18
 	}
 	return 0x17
@@ -88,10 +100,39 @@ func SBFinishConfigID(proto int) int { return sbFinishConfig(proto) }
 
 // CBPlayDisconnectID is the clientbound play disconnect id.
 func CBPlayDisconnectID(proto int) int {
-	if proto >= P1_20_2 {
+	switch {
+	case proto == P1_8:
+		return 0x40
+	case legacy(proto):
+		return 0x1a
+	case proto >= P1_20_2:
 		return 0x1b
 	}
 	return 0x1a
+}
+
+// PlayJoinGameID is JoinGameID extended by 1.12.2 and 1.8.
+func PlayJoinGameID(proto int) int {
+	switch {
+	case proto == P1_8:
+		return 0x01
+	case legacy(proto):
+		return 0x23
+	}
+	return JoinGameID(proto)
+}
+
+// UnknownPlayPacketID is a serverbound play packet gate does not decode (it is forwarded to
+// the connected backend as is): teleport confirm, or animation for 1.8 (0x00 is keep-alive there).
+func UnknownPlayPacketID(proto int) int {
+	if proto == P1_8 {
+		return 0x0a
+	}
+	return 0x00
+}
+
+func uuidString(u [16]byte) string {
+	return fmt.Sprintf("%x-%x-%x-%x-%x", u[0:4], u[4:6], u[6:8], u[8:10], u[10:16])
 }
 
 // PluginPayload is the body of a custom payload packet (1.13+): channel, then raw data.
@@ -285,7 +326,7 @@ func (c *SClient) AckStartConfig() error {
 
 // AwaitJoinGame waits for the n-th JoinGame.
 func (c *SClient) AwaitJoinGame(n int, d time.Duration) bool {
-	return c.Wait(d, func(l []Recv, closed bool) bool { return Count(l, "play", JoinGameID(c.Proto)) >= n })
+	return c.Wait(d, func(l []Recv, closed bool) bool { return Count(l, "play", PlayJoinGameID(c.Proto)) >= n })
 }
 
 // SendPlugin sends a custom payload in the client's current state.
@@ -397,7 +438,11 @@ func (sc *SBackendConn) SendLoginSuccess() error {
 	if !sc.HasUUID {
 		id = OfflineUUID(sc.Name)
 	}
-	err := sc.WritePacket(LoginSuccessID, LoginSuccessPayload(sc.Proto, id, sc.Name))
+	payload := LoginSuccessPayload(sc.Proto, id, sc.Name)
+	if sc.Proto < 735 { // before 1.16 the id travels as a string
+		payload = (&mcwire.Buf{}).String(uuidString(id)).String(sc.Name).B
+	}
+	err := sc.WritePacket(LoginSuccessID, payload)
 	if sc.Proto < P1_20_2 {
 		sc.setState("play") // no acknowledgement below 1.20.2: what follows is play traffic
 	}
@@ -419,6 +464,16 @@ func (sc *SBackendConn) AwaitFinishAck(n int, d time.Duration) bool {
 
 // SendJoinGame sends JoinGame.
 func (sc *SBackendConn) SendJoinGame() error {
+	if legacy(sc.Proto) {
+		b := (&mcwire.Buf{}).I32(int32(100 + sc.N)).Byte(0)
+		if sc.Proto == P1_8 {
+			b.Byte(0) // dimension: byte
+		} else {
+			b.I32(0) // dimension: int
+		}
+		b.Byte(1).Byte(20).String("default").Bool(false)
+		return sc.WritePacket(PlayJoinGameID(sc.Proto), b.B)
+	}
 	jg, err := JoinGamePayload(sc.Proto, int32(100+sc.N))
 	if err != nil {
 		return err
